@@ -130,6 +130,11 @@ def gen_cases(tier, seed):
         cases.append({'kind': 'async', 'n': rng.choice([1, 30, 120]), 'concurrency': rng.choice([1, 2, 8]),
                       'return_x': rng.random() < 0.5, 'return_exceptions': rng.random() < 0.7, 'fail_rate': rng.choice([0, 0.1]),
                       'seed': rng.randrange(1 << 30)})
+    # (e) the same parmap Stream object iterated again after a first pass that was completed, abandoned or failed
+    for i in range(16 if tier == 'quick' else 300):
+        cases.append({'kind': 'reiterate', 'executor': ['thread', 'thread', 'async', 'process'][i % 4], 'first': ['break', 'close', 'worker-raises', 'complete'][(i // 4) % 4],
+                      'n': rng.choice([6, 25]) if i % 4 != 3 else 8, 'concurrency': rng.choice([1, 2, 4]), 'return_x': rng.random() < 0.5,
+                      'return_exceptions': rng.random() < 0.5, 'seed': rng.randrange(1 << 30)})
     return cases
 
 
@@ -334,6 +339,62 @@ def run_case(case):
         obs['outputs_checked'] = len(out)
         sigs.append(hash(('async', case['seed'])) & 0xFFFFFFFFFFFF)
         sample = {'kind': 'async', 'n': n, 'concurrency': case['concurrency'], 'outputs': len(out)}
+
+    elif kind == 'reiterate':
+        from vlib import targets
+
+        rng = random.Random(case['seed'])
+        n = case['n']
+        first = case['first']
+        rexc = case['return_exceptions'] if first != 'worker-raises' else False
+        # element 1 fails in the first pass only when that pass is meant to fail
+        state = {'pass': 0}
+        items = [(i, rng.choice([0, 0.001, 0.004]), False) for i in range(n)]
+
+        class Src:
+            def __iter__(self):
+                state['pass'] += 1
+                if first == 'worker-raises' and state['pass'] == 1:
+                    return iter([x if x[0] != 1 else (x[0], x[1], True) for x in items])
+                return iter(items)
+
+        work = {'thread': targets.proc_work, 'process': targets.proc_work, 'async': targets.async_work}[case['executor']]
+        kw = {'executor': case['executor']} if case['executor'] != 'async' else {}
+        st = S.Stream(Src()).parmap(work, concurrency=case['concurrency'], return_x=case['return_x'], return_exceptions=rexc, **kw)
+        exp = [((x, ('f', x[0], True)) if case['return_x'] else ('f', x[0], True)) for x in items]
+
+        def passes():
+            it = iter(st)
+            got1 = []
+            try:
+                if first in ('break', 'close'):
+                    got1.append(next(it))
+                else:
+                    got1.extend(it)
+            except Exception as e:  # noqa: BLE001
+                got1.append(e)
+            if first == 'break':
+                del it
+            else:
+                it.close()
+            return got1, [list(st), list(st)]
+
+        try:
+            got1, later = watch.run_bounded(passes, 90, 're-iteration of a parmap stream')
+        except watch.Hang as h:
+            viol.append({'mech': 'parmap-reiterate/hang', 'msg': f'{case["executor"]} parmap: iterating the same stream again after a first pass ended by {first} did not finish', 'stacks': h.stacks})
+            return {'violations': viol, 'obs': obs, 'exit_after': True}
+        for k, out in enumerate(later):
+            out = [norm_exc(z) for z in out]
+            if out != [norm_exc(z) for z in exp]:
+                viol.append({'mech': 'parmap-reiterate/wrong-output', 'msg': f'{case["executor"]} parmap (concurrency {case["concurrency"]}): pass {k + 2} over the same Stream object after a first pass '
+                             f'ended by {first} gave {len(out)} outputs {out[:4]!r}...; expected {len(exp)} in input order'})
+                break
+        obs['runs'] = 3
+        obs['reiterate_runs'] = 1
+        obs['outputs_checked'] = sum(len(o) for o in later)
+        sigs.append(hash(('reiterate', case['executor'], first, case['seed'])) & 0xFFFFFFFFFFFF)
+        sample = {'kind': 'reiterate', 'executor': case['executor'], 'first_pass': first, 'n': n, 'first_pass_outputs': len(got1), 'later_pass_outputs': [len(o) for o in later]}
 
     if stats['lane_overflow']:
         viol.append({'mech': 'singlelane/overflow', 'msg': f'SingleLane held more than maxsize elements ({stats})'})
